@@ -191,6 +191,8 @@ def plan(tier):
         jobs.append({"part": "random", "examples": 1000 if tier == "quick" else 30000})
     for i in range(8 if tier == "quick" else 32):
         jobs.append({"part": "wire", "op": "read" if i % 2 else "write", "examples": 160 if tier == "quick" else 1200})
+    for i in range(2 if tier == "quick" else 8):
+        jobs.append({"part": "helper-route", "examples": 60 if tier == "quick" else 1000})
     return jobs
 
 
@@ -207,6 +209,11 @@ def run_job(ctx, job):
                 for d in discs:
                     ctx.violation(d, "logical", {"kind": kind, "value": v, "form": form})
         ctx.exhaustive_parts.append("all 16-bit values x 5 logical kinds x int/bytes forms")
+    elif part == "helper-route":
+        # the paths sent by the helpers built on generic messaging (module identity along backplane/slot) and the connection path of a
+        # connection opened afterwards: the helper must not have changed where the driver's own route leads
+        from . import c14
+        hyp_search(ctx, "helper", c14.helper_cases(), lambda c: (check_helper_route(c), True, ["helper-route", "helper-route." + c["variant"]]), job["examples"])
     elif part == "random":
         @st.composite
         def cases(draw):
@@ -265,6 +272,11 @@ def check_wire(case):
     return discs
 
 
+def check_helper_route(c):
+    from . import c14
+    return [d for d in c14.check_helper(c) if d.bucket.startswith(("audit.", "helper.module_info.route", "helper.route"))]
+
+
 def check_random(c):
     if c["k"] == "logical32":
         return check_logical(c["kind"], c["value"], c["form"])
@@ -280,4 +292,6 @@ def replay(ctx, kind, case):
         return check_logical(case["kind"], case["value"], case["form"])
     if kind == "random":
         return check_random(case)
+    if kind == "helper":
+        return check_helper_route(case)
     return check_wire(case)
